@@ -3,8 +3,8 @@ import McpModel.Wire.Result
 /-!
 # C19 — content theorems: `content_roundtrip`, `required_members_present`
 -/
-namespace Wire
-open Generated.Wire
+namespace Wire.L
+open Wire Generated.Wire
 
 /-- one string member: rewrite with `step_str`, then evaluate `setScalar` -/
 macro "wstr" : tactic => `(tactic| (
@@ -367,4 +367,4 @@ theorem required_lists_present (k : RKind) (l : RList) (v : JVal) (h : sdkResult
 /-- The one case in which nothing is sent: `resources/read` with nil contents is an error. -/
 example : (match sdkResultList .readResource .nil with | .errorInstead => true | _ => false) = true := rfl
 
-end Wire
+end Wire.L
